@@ -32,4 +32,22 @@ theorem linearizable_valid_points (hr : r ∈ unconditionalCurves) :
   intro E g hP hS hgen hnogen full ptr0 hp0 ops hwf sched
   exact C18.linearizable_valid_points_partial (baseCtx r (checked_of_mem (mem_table hr))).n2t E g hP hS hgen hnogen full ptr0 hp0 ops hwf sched
 
+/-- value level, threads running finite lists of operations: every completed operation returned exactly ONE observable value
+(`sval`), a function of the denoted group elements, under every schedule -/
+theorem linearizable_value (hr : r ∈ unconditionalCurves) :
+    haveI := factP hr
+    ∀ (E : Env) (g : Nat → Grp ((r.a : ℤ) : ZMod r.p) ((r.b : ℤ) : ZMod r.p)),
+    Valid (baseCtx r (checked_of_mem (mem_table hr))) E g →
+    ∀ (full : Nat → Bool) (ptr0 : Nat → Nat), (∀ kid, E.targets kid (ptr0 kid)) → ∀ (thr : List (List Op)),
+    (∀ ops ∈ thr, ∀ op ∈ ops, op.wf E) → ∀ (sched : List Nat),
+    (∀ k, E.good k ((run E.canon (initCfgSeq E full ptr0 thr) sched).heap k)) ∧
+    (∀ (j : Nat) (ops : List Op) (t : Thread Cell Val (List (Res Out))) (rs : List (Res Out)), thr[j]? = some ops →
+        (run E.canon (initCfgSeq E full ptr0 thr) sched).thr[j]? = some t → t.prog = .ret rs →
+        rs.length = ops.length ∧ obsAll E ops rs = ops.map (sval E g ptr0)) := by
+  haveI := factP hr
+  intro E g hv full ptr0 hp0 thr hwf sched
+  exact C18.linearizable_value_seq_partial (p_ne_two (checked_of_mem (mem_table hr)))
+    (baseCtx r (checked_of_mem (mem_table hr))) E g hv full ptr0 hp0 thr hwf sched
+
+
 end UncondC18
